@@ -122,6 +122,31 @@ Theorem C06_int_index : forall n i,
 Proof. exact PySliceProofs.index_int_spec. Qed.
 Print Assumptions C06_int_index.
 
+(* __getitem__ against the declarative definition directly: an empty selection raises,
+   otherwise result bit j = source bit idx[j] where idx IS the Python slice of range(len) *)
+Theorem C06_getitem_slice_python : forall a s e st idx, 0 <= wd a -> is_slice_of (wd a) s e st idx ->
+  (idx = [] -> getitem a (ISlice s e st) = None) /\
+  (idx <> [] -> exists r, getitem a (ISlice s e st) = Some r /\
+      wd r = Z.of_nat (length idx) /\ inrange (val r) (wd r) /\
+      forall j, 0 <= j < wd r -> Z.testbit (val r) j = Z.testbit (val a) (nth (Z.to_nat j) idx 0)).
+Proof. exact OpsProofs.getitem_slice_python. Qed.
+Print Assumptions C06_getitem_slice_python.
+
+Theorem C06_getitem_int : forall a i, wf a ->
+  getitem a (IInt i) =
+  if (- wd a <=? i) && (i <? wd a)
+  then Some (b2z (Z.testbit (val a) (if i <? 0 then i + wd a else i)), 1)
+  else None.
+Proof. exact OpsProofs.getitem_int_spec. Qed.
+Print Assumptions C06_getitem_int.
+
+Theorem C06_getitem_reverse : forall a, wf a ->
+  exists r, getitem a (ISlice None None (Some (-1))) = Some r /\ wd r = wd a /\
+    inrange (val r) (wd a) /\
+    forall j, 0 <= j < wd a -> Z.testbit (val r) j = Z.testbit (val a) (wd a - 1 - j).
+Proof. exact OpsProofs.getitem_reverse. Qed.
+Print Assumptions C06_getitem_reverse.
+
 (* the contiguous forms: a[:k] (truncate), a[k:], a[-1] *)
 Theorem C06_truncate : forall a n, wf a -> 1 <= n ->
   truncate a n = if wd a <? n then None else Some (val a mod 2 ^ n, n).
